@@ -119,6 +119,18 @@ def gen_program(rng, idx):
         actions += [lambda r, sm=sm: [('print', call(sm, I(r.randint(0, 3))))],
                     lambda r, bump=bump, off=off: [('print', call(bump)), ('print', V(off))],
                     lambda r, off=off: [('asg', off, None, ('bin', '+', V(off), I(5)))]]
+        # the same with a `modify` of the captured variable BEFORE the loop: that statement writes the captured variable, it
+        # does not declare a variable of this function, so the counter is still a loop-local and the reads / modify after
+        # the loop mean the captured variable
+        if rng.random() < 0.6:
+            bumpm = 'bumpm%d' % idx
+            prog.append(('asg', bumpm, None, fn([], 'int', [
+                ('mod', off, ('bin', '+', V(off), I(rng.randint(1, 3)))),
+                ('from', I(0), I(rng.randint(1, 3)), rng.random() < 0.5, None, off, False, [('print', V(off))]),
+                ('asg', 'seen', None, V(off)),
+                ('mod', off, ('bin', '+', V(off), I(1))),
+                ('ret', ('bin', '+', ('bin', '*', V('seen'), I(1000)), V(off)))])))
+            actions += [lambda r, bumpm=bumpm, off=off: [('print', call(bumpm)), ('print', V(off))]]
     # closures created INSIDE a block (if body, from / while iteration) over a variable declared in that block: the
     # variable outlives the block for as long as the closure does
     if rng.random() < 0.5:
@@ -192,6 +204,71 @@ def view_cases(rng, n):
     return out
 
 
+# ---- a captured variable is an ordinary variable in EVERY position of the function body (outside the Coq AST: lists,
+# maps, strings, methods; Python oracle).  a = 1, bi = B2, k = "k", lst = [10, 20, 30], s = "hello", m = {"k": 1}
+CAPTURE_POSITIONS = [
+    ("list-index-read", "int", "return lst[a]", "20"),
+    ("list-index-read-parenthesised", "int", "return (lst)[a]", "20"),
+    ("list-index-bigint", "int", "return lst[bi]", "30"),
+    ("list-index-write", "int", "lst[a] = 99\nreturn lst[a] + lst[0]", "109"),
+    ("list-index-op-assign", "int", "lst[a] += 5\nreturn lst[a]", "25"),
+    ("list-index-nested", "int", "return lst[lst[0] - 10 + a]", "20"),
+    ("str-index", "str", "return s[a]", "e"),
+    ("map-key-read", "int", "return m[k]", "1"),
+    ("map-key-write", "int", "m[k] = 7\nreturn m[k]", "7"),
+    ("map-key-op-assign", "int", "m[k] += 2\nreturn m[k]", "3"),
+    ("arithmetic", "int", "return a + lst[0] * a", "11"),
+    ("index-computed", "int", "return lst[a + 0]", "20"),
+    ("index-local-copy", "int", "i = a\nreturn lst[i]", "20"),
+    ("loop-bound", "int", "t = 0\nfrom 0 to a + 2, j {\nt = t + lst[j]\n}\nreturn t", "60"),
+    ("loop-bound-start-step", "int", "t = 0\nfrom a through a step a {\nt = t + 1\n}\nreturn t", "1"),
+    ("condition", "int", "if a == 1 && k == \"k\" {\nreturn 1\n}\nreturn 0", "1"),
+    ("while-condition", "int", "t = a\nwhile t < lst[a] {\nt = t + 7\n}\nreturn t", "22"),
+    ("negation", "int", "return -a", "-1"),
+    ("call-argument", "int", "inner = fn(i: int) -> int {\nreturn i * 2\n}\nreturn inner(a) + inner(lst[a])", "42"),
+    ("list-literal", "int", "t: [int...] = [a, lst[a]]\nreturn t[a]", "20"),
+    ("concatenation", "str", "return s + k + a", "hellok1"),
+]
+
+
+def capture_position_cases():
+    out = []
+    decl_mod = "a = 1\nbi = B2\nk = \"k\"\nlst: [int...] = [10, 20, 30]\ns = \"hello\"\nm = map[str, int] { \"k\": 1 }\n"
+    decl_fn = "bi = B2\nlst: [int...] = [10, 20, 30]\ns = \"hello\"\nm = map[str, int] { \"k\": 1 }\n"
+    for pos, ret, body, exp in CAPTURE_POSITIONS:
+        ind = lambda n: "".join("  " * n + l + "\n" for l in body.split("\n"))
+        # the variables belong to the module, the function reads them
+        out.append((pos, "module", decl_mod + "f = fn() -> %s {\n%s}\nprint f()\n" % (ret, ind(1)), [exp]))
+        # they are parameters / locals of an enclosing function that has returned
+        out.append((pos, "factory", "mk = fn(a: int, k: str) -> fn() -> %s {\n%s  g = fn() -> %s {\n%s  }\n  return g\n}\nh = mk(1, \"k\")\nprint h()\n"
+                    % (ret, "".join("  " + l + "\n" for l in decl_fn.split("\n")[:-1]), ret, ind(2)), [exp]))
+        # three function levels between the variable and its use
+        out.append((pos, "depth-3", decl_mod + "o = fn() -> %s {\n  i1 = fn() -> %s {\n    i2 = fn() -> %s {\n%s    }\n    return i2()\n  }\n  return i1()\n}\nprint o()\n"
+                    % (ret, ret, ret, ind(3)), [exp]))
+        # the function is a method
+        out.append((pos, "method", decl_mod + "class C {\n  v: int\n  constructor(self) {\n    self.v = 0\n  }\n  fn run(self) -> %s {\n%s  }\n}\nc = C()\nprint c.run()\n"
+                    % (ret, ind(2)), [exp]))
+    return out
+
+
+# ---- `modify x = ..` writes the captured variable: it is not a declaration of the function.  What follows it in the same
+# function is judged as if it were not there: a loop counter named x is a loop-local, a plain `x = ..` creates a local (of
+# whatever type), and after either the reads / modifies of x that the language lets through mean what they meant before.
+MODIFY_ALIAS_CASES = [
+    ("counter-after-modify", "x = 1\nf = fn() -> int {\n  modify x = 10\n  from 0 to 3, x { }\n  r = x\n  modify x = x + 1\n  return r * 1000 + x\n}\nprint f()\nprint x\n", ["10011", "11"]),
+    ("counter-before-modify", "x = 1\nf = fn() -> int {\n  from 0 to 3, x { }\n  modify x = 10\n  r = x\n  modify x = x + 1\n  return r * 1000 + x\n}\nprint f()\nprint x\n", ["10011", "11"]),
+    ("stepped-counter-after-modify", "x = 1\nf = fn() -> int {\n  modify x = 10\n  t = 0\n  from 0 through 4 step 2, x {\n    t = t + x\n  }\n  modify x = x + 1\n  return t * 100 + x\n}\nprint f()\nprint x\n", ["611", "11"]),
+    ("counter-after-modify-enclosing-function",
+     "mk = fn() -> fn() -> int {\n  c = 1\n  g = fn() -> int {\n    modify c = c + 9\n    from 0 to 3, c { }\n    r = c\n    modify c = c + 1\n    return r * 1000 + c\n  }\n  return g\n}\nh = mk()\nprint h()\nprint h()\n",
+     ["10011", "20021"]),
+    ("counter-in-block-after-modify", "x = 1\ng = fn() -> int {\n  modify x = 20\n  if true {\n    from 0 through 2, x {\n      print x\n    }\n  }\n  modify x = x + 1\n  return x\n}\nprint g()\nprint x\n", ["0", "1", "2", "21", "21"]),
+    ("local-of-other-type-after-modify", "x = 5\nf = fn() -> str {\n  modify x = 6\n  x = \"text\"\n  return x\n}\nprint f()\nprint x\n", ["text", "6"]),
+    ("typed-local-of-other-type-after-modify", "x = 5\nf = fn() -> str {\n  modify x = 6\n  x: str = \"text\"\n  return x + \"!\"\n}\nprint f()\nprint x\n", ["text!", "6"]),
+    ("local-of-other-type-without-modify", "x = 5\nf = fn() -> str {\n  x = \"text\"\n  return x\n}\nprint f()\nprint x\n", ["text", "5"]),
+    ("local-of-same-type-after-modify", "x = 1\nf = fn() -> int {\n  modify x = 10\n  x = 5\n  x = x + 1\n  return x\n}\nprint f()\nprint x\n", ["6", "10"]),
+]
+
+
 def run(ctx):
     ok = core.coq_props(ctx, "Props/C07.v")
     binary = core.build_repo()
@@ -217,8 +294,25 @@ def run(ctx):
         if rc != 0 or got != exp:
             ctx.report("semantics:captured-value-is-a-view", "a captured / assigned variable must hold the value read, not a view of the element or field: printed %r (exit %d), expected %r" % (got, rc, exp),
                        {"program": src, "expected": exp, "observed": got, "rc": rc, "stderr": err[-300:], "how": "mscript run main.ms -q"})
+    cps = capture_position_cases()
+    for (pos, where, src, exp), (rc, out, err) in zip(cps, programs.pmap(one_view, [(c[2], c[3]) for c in cps])):
+        got = out.split("\n")[:-1]
+        if rc != 0 or got != exp:
+            refused = "Did not compile" in (out + err)
+            ctx.report("captured-variable:" + pos, "a captured variable used as %s (%s): %s, expected %r: %s"
+                       % (pos, where, "the program is refused" if refused else "printed %r (exit %d)" % (got, rc), exp, (out + err)[-300:].replace("\n", " ")),
+                       {"program": src, "expected": exp, "observed": got, "rc": rc, "stderr": err[-600:], "how": "mscript run main.ms -q"})
+    for (form, src, exp), (rc, out, err) in zip(MODIFY_ALIAS_CASES, programs.pmap(one_view, [(c[1], c[2]) for c in MODIFY_ALIAS_CASES])):
+        got = out.split("\n")[:-1]
+        if rc != 0 or got != exp:
+            refused = "Did not compile" in (out + err)
+            ctx.report("modify-is-not-a-declaration:" + form, "what follows a `modify` of a captured variable in the same function (%s): %s, expected %r: %s"
+                       % (form, "the program is refused" if refused else "printed %r (exit %d)" % (got, rc), exp, (out + err)[-300:].replace("\n", " ")),
+                       {"program": src, "expected": exp, "observed": got, "rc": rc, "stderr": err[-600:], "how": "mscript run main.ms -q"})
     ctx.cov["view_cases"] = len(vcs)
-    ctx.cov["evaluations"] = st["programs"] + len(vcs)
+    ctx.cov["capture_position_cases"] = len(cps)
+    ctx.cov["modify_alias_cases"] = len(MODIFY_ALIAS_CASES)
+    ctx.cov["evaluations"] = st["programs"] + len(vcs) + len(cps) + len(MODIFY_ALIAS_CASES)
     ctx.cov["distinct_nontrivial"] = len(set(r["proj"]["files"]["main.ms"] for r in results if r["status"] == "ran" and "modify" in r["proj"]["files"]["main.ms"]))
     ctx.cov["rule"] = ("closure programs: 1-3 owners (module-level variable with reader/writer/shadowing closures; factory returning a stepping closure that "
                        "shares a cell with a second closure, instantiated twice; depth-3 nesting with a modify from the innermost function), random histories of "
@@ -229,5 +323,5 @@ def run(ctx):
     ctx.cov["trusted_base"] = ["Coq 8.16.1 kernel; no axioms", "extraction + drivers", "hooks H1/H3"]
     ctx.assumptions = ["Lang/Eval.v (lexical scoping, capture by reference, modify writes the captured cell, plain assignment declares a local) is the specification",
                        "capture lists: T1 compares the make_function arguments of the real compiler with Compile.free_vars as sets"]
-    spec_failed = any(v[0].startswith("semantics:") for v in ctx.viol)
+    spec_failed = any(v[0].startswith(("semantics:", "captured-variable:", "modify-is-not-a-declaration:")) for v in ctx.viol)
     core.proof_or_search(ctx, ok, ["C07 obligations"], spec_failed)
